@@ -838,7 +838,13 @@ def _read_namespaced_map(ctx: ReaderContext) -> lmap.PersistentMap:
                 "be specified as keywords without namespaces"
             )
 
-    _consume_whitespace(ctx)
+    char = _consume_whitespace(ctx)
+    if char == "":
+        raise ctx.eof_error("Unexpected EOF in namespaced map")
+    if char != "{":
+        raise ctx.syntax_error(
+            f"Expected '{{' after namespaced map prefix '#:{map_ns}'; got '{char}'"
+        )
 
     return _read_map(ctx, namespace=map_ns)
 
